@@ -208,8 +208,9 @@ def unstring_annotation(node: ast.expr, ctx:'model.Documentable', section:str='a
     """
     try:
         expr = _AnnotationStringParser().visit(node)
-    except (SyntaxError, ValueError) as ex:
-        # ValueError is raised for strings containing null bytes or lone surrogates.
+    except (SyntaxError, ValueError, RecursionError) as ex:
+        # ValueError is raised for strings containing null bytes or lone surrogates,
+        # RecursionError for expressions that are nested too deeply for the parser.
         module = ctx.module
         assert module is not None
         module.report(f'syntax error in {section}: {ex}', lineno_offset=node.lineno, section=section)
